@@ -1,7 +1,7 @@
 (* C20: executable comparison functions used by the harness-generated case files
    (model + K9 context vs. observations of the real implementation). *)
 From Coq Require Import List String Ascii ZArith Bool.
-From Verif Require Import Regex PyK PyK_schema SchemaGen K9Proofs.
+From Verif Require Import Regex PyK PyK_schema SchemaGen K9Proofs SchemaRoundtrip.
 From VerifGen Require Import K9.
 Import ListNotations.
 Open Scope string_scope.
@@ -99,3 +99,13 @@ Definition k9_ok (c: k9case) : bool :=
 
 Definition mk_ctx (D ar q: kv) : kv :=
   KNs [("dialect", D); ("definitions", KDict []); ("all_refs", ar); ("ref_prefix", q); ("plugins", KTuple [])].
+
+(* round trip: document, expected canonical text of JSONSchema.from_dict(d).to_dict() or "ERR" when from_dict raised.
+   Documents outside the modelled value domain (NOut) make no claim; they are counted separately. *)
+Definition rt_ok (c: js * string) : bool :=
+  match norm (fst c) with
+  | NOk d => String.eqb (canon d) (snd c)
+  | NErr => String.eqb (snd c) "ERR"
+  | NOut => true
+  end.
+Definition rt_out (c: js * string) : bool := match norm (fst c) with NOut => false | _ => true end.
